@@ -28,6 +28,9 @@ def run(ctx):
     if not behs:
         raise vlib.Broken("no behaviours")
     replay_family(ctx, "method", behs, classify=classify)
+    # the same at scale (Scale.tla bound to 8 struct types x 8 methods: groups, one shared builder / a builder per method)
+    from checks import life
+    life.scale(ctx, 60, 1500, family="scale-method")
     # a type is addressed by package AND name: three packages define a same-named unexported struct with a same-named method (Pkg.tla)
     g = ctx.tlc("Pkg", "Gen_Pkg.cfg", workers=1, timeout=600, constants={"MaxOps": 4 if q else 5, "K": '{"method"}'}, tag="same-named struct types in 3 packages: all histories")
     replay_family(ctx, "pkg", ctx.behaviours(g))
